@@ -185,7 +185,7 @@ func ArrayTupleEqual(vm *Thread, x, y value.ArrayTuple) (bool, value.Value) {
 	}
 
 	for i := 0; i < xLen; i++ {
-		equal, err := vm.CallMethodByName(symbol.OpEqual, x.AtVal(i), y.AtVal(i))
+		equal, err := Equal(vm, x.AtVal(i), y.AtVal(i))
 		if !err.IsUndefined() {
 			return false, err
 		}
